@@ -26,6 +26,14 @@ func (it *Interp) yearOf(ns Value) Value {
 		sec := new(big.Int).Div(b, nsPerSec)
 		return big.NewInt(int64(time.Unix(sec.Int64(), 0).UTC().Year()))
 	}
+	// the whole interval lies within one calendar year: the year is concrete
+	if lo, hi := rng(ns); lo != nil && hi != nil {
+		y1 := time.Unix(new(big.Int).Div(lo, nsPerSec).Int64(), 0).UTC().Year()
+		y2 := time.Unix(new(big.Int).Div(hi, nsPerSec).Int64(), 0).UTC().Year()
+		if y1 == y2 && lo.IsInt64() && hi.IsInt64() {
+			return big.NewInt(int64(y1))
+		}
+	}
 	if _, ok := it.store["yearfun"]; !ok {
 		var sb strings.Builder
 		sb.WriteString("(define-fun yearOfNs ((t Int)) Int ")
@@ -56,7 +64,7 @@ func registerTime(P *Program) {
 		return TimeV{NS: mkAdd(mkMul(a[0], nsPerSec), a[1])}
 	})
 	P.reg("time.UnixMilli", func(it *Interp, a []Value) Value { return TimeV{NS: mkMul(a[0], big.NewInt(1000000))} })
-	P.reg("time.Now", func(it *Interp, a []Value) Value { panic(unsupported("time.Now (wall clock) in code under analysis")) })
+	P.reg("time.Now", func(it *Interp, a []Value) Value { return PoisonV{Why: "time.Now (wall clock): only usable by telemetry"} })
 	P.reg("time.Date", func(it *Interp, a []Value) Value {
 		t := time.Date(int(asBig(a[0]).Int64()), time.Month(asBig(a[1]).Int64()), int(asBig(a[2]).Int64()), int(asBig(a[3]).Int64()),
 			int(asBig(a[4]).Int64()), int(asBig(a[5]).Int64()), int(asBig(a[6]).Int64()), time.UTC)
